@@ -3329,7 +3329,12 @@ def remove_duplicate_dict_keys(source: str) -> str:
         keys = []
         values = []
         for i, (key, value) in enumerate(zip(node.keys, node.values)):
-            if not isinstance(key, ast.Constant) or i == max(key_occurences[key.value]):
+            if (
+                not isinstance(key, ast.Constant)
+                or i == max(key_occurences[key.value])
+                # The value of an overwritten key is still evaluated
+                or core.has_side_effect(value)
+            ):
                 keys.append(key)
                 values.append(value)
 
